@@ -96,6 +96,8 @@ func zStreamValue(kind int, tag string, shared *ZInner) interface{} {
 		}
 		rs[2049] = rune('a' + zSmall(tag)%26)
 		return string(rs)
+	case 12:
+		return float64(zSmall(tag)) + 0.25 // an 8-octet double
 	default: // a binary of two chunks (4096 + 1 octets)
 		b := make([]byte, 4097)
 		for i := range b {
@@ -126,6 +128,9 @@ func zStreamEq(kind int, a, b interface{}) bool {
 	case 6:
 		x, ok := b.(int64)
 		return ok && x == a.(int64)
+	case 12:
+		x, ok := b.(float64)
+		return ok && x == a.(float64)
 	case 7:
 		x, ok := b.([]interface{})
 		if !ok || len(x) != 2 {
@@ -156,13 +161,25 @@ func H_C06_stream() {
 	kinds := make([]int, n)
 	vals := make([]interface{}, n)
 	for i := range vals {
-		kinds[i] = vChoice("kind", 12)
+		kinds[i] = vChoice("kind", 13)
 		vals[i] = zStreamValue(kinds[i], "v", shared)
 	}
 	viaSerializer := vChoice("api", 2) == 1
 	w := &vBufWriter{}
+	// an earlier, finished stream through the same instance: none / empty containers only / the shared object
+	prior := vChoice("prior", 3)
+	var priorVal interface{}
+	switch prior {
+	case 1:
+		priorVal = []string{}
+	case 2:
+		priorVal = []interface{}{shared, []int32{}}
+	}
 	if viaSerializer {
 		s := NewSerializer(tm, nm)
+		if prior > 0 {
+			vAssert("prior-noerr", s.WriteTo(&vBufWriter{}, priorVal) == nil)
+		}
 		for i, v := range vals {
 			var err error
 			if i == 0 {
@@ -174,6 +191,10 @@ func H_C06_stream() {
 		}
 	} else {
 		e := NewEncoder(w, nm)
+		if prior > 0 {
+			vAssert("prior-noerr", e.WriteTo(&vBufWriter{}, priorVal) == nil)
+			e.Reset(w)
+		}
 		for _, v := range vals {
 			vAssert("write-noerr", e.WriteObject(v) == nil)
 		}
